@@ -767,7 +767,12 @@ class ViewRepresentation(OperatorPlatform, abc.ABC):
             check_all_common_keys_in_equi_spec or check_all_common_keys_in_by
         )
         if self.is_trivial_when_intermediate_():
-            return self.sources[0].natural_join(b, on=on, jointype=jointype)
+            return self.sources[0].natural_join(
+                b,
+                on=on,
+                jointype=jointype,
+                check_all_common_keys_in_equi_spec=check_all_common_keys_in_equi_spec,
+            )
         return NaturalJoinNode(
             a=self,
             b=b,
@@ -884,9 +889,11 @@ class ViewRepresentation(OperatorPlatform, abc.ABC):
             return self
         if self.is_trivial_when_intermediate_():
             return self.sources[0].select_columns(columns)
-        if isinstance(self, SelectColumnsNode):
-            return self.sources[0].select_columns(columns)
-        if isinstance(self, DropColumnsNode):
+        if isinstance(self, (SelectColumnsNode, DropColumnsNode)):
+            # collapse into one selection on our source, but only of columns this step still has
+            unknown = set(columns) - set(self.column_names)
+            if len(unknown) > 0:
+                raise KeyError("selecting unknown columns " + str(unknown))
             return self.sources[0].select_columns(columns)
         return SelectColumnsNode(source=self, columns=columns)
 
